@@ -140,19 +140,26 @@ def check_string(case) -> Outcome:
         return out
     parser = libio.parser_for(cfg)
     results = []
-    for entry, fn in (
+    entries = [
         ("Formula", lambda: Formula(s, _parser=parser)),
         ("get_terms", lambda: parser.get_terms(s)),
-    ):
+    ]
+    if "." in s:
+        # with the available variables known, `.` expands (to factors that have no source token) instead of being refused
+        entries.append(("get_terms+variables", lambda: parser.get_terms(s, context={"__formulaic_variables_available__": ["a", "b", "c", "x1", "y"]})))
+        out.label("dot-resolvable")
+    for entry, fn in entries:
         kind, val = _call(fn)
         if kind == "timeout":
             kind2, _ = _call(fn)
             if kind2 == "timeout":
                 out.fail("terminates", f"{entry}({s!r}) exceeded the 20s watchdog twice", entry=entry)
-            results.append("timeout")
+            if entry != "get_terms+variables":
+                results.append("timeout")
             continue
         if kind == "ok":
-            results.append("accept")
+            if entry != "get_terms+variables":
+                results.append("accept")
             used = _shape_flags(val)
             extra = used - set(cfg["flags"])
             if extra:
@@ -163,7 +170,8 @@ def check_string(case) -> Outcome:
                 )
             continue
         e = val
-        results.append("reject")
+        if entry != "get_terms+variables":
+            results.append("reject")
         if isinstance(e, FormulaParsingError):
             continue
         if type(e) is SyntaxError or (isinstance(e, SyntaxError) and not isinstance(e, FormulaParsingError)):
@@ -251,6 +259,70 @@ def gen_multistage():
     )
 
 
+def gen_tokenless():
+    """Invalid uses of operands that the parser synthesises (expansions of `.`, fitted values of a stage): the
+    offending factor has no source token to point at."""
+    e = G.expr(max_leaves=3, rich=False, allow_dot=True)
+    num = st.sampled_from(["2", "3", "0.5", "2.5", "10"])
+    name = st.sampled_from(["a", "b", "x1", "y"])
+    pw = st.sampled_from(["**", "^"])
+    pre = st.sampled_from(["", "y ~ ", "y ~ a + ", "a | "])
+    stage = st.sampled_from(["[a ~ b]", "[y ~ x1 + c]"])
+    t = st.one_of(
+        st.builds(lambda p, x, o: f"{p}{x} {o} .", pre, name, pw),
+        st.builds(lambda p, x, o: f"{p}({x} + .) {o} .", pre, name, pw),
+        st.builds(lambda p, a_, b_: f"{p}.:{a_} + .:{b_}", pre, num, num),
+        st.builds(lambda p, a_, b_: f"{p}{a_}:. + {b_}:.", pre, num, num),
+        st.builds(lambda p, a_: f"{p}. + {a_}", pre, num),
+        st.builds(lambda p, a_: f"{p}{a_} * .", pre, num),
+        st.builds(lambda p: f"{p}.:'s'", pre),
+        st.builds(lambda p, x, o, g: f"{p}{x} {o} {g}", pre, name, pw, stage),
+        st.builds(lambda p, g, a_, b_: f"{p}{g}:{a_} + {g}:{b_}", pre, stage, num, num),
+        st.builds(lambda p, g, a_: f"{p}{g} + {a_}", pre, stage, num),
+        st.builds(lambda tr, a_, b_: f"{G.join(G.tokens_of(tr))} + .:{a_} + {b_}:.", e, num, num),
+    )
+    return st.builds(lambda s_, c: {"s": s_, "cfg": c}, t, config)
+
+
+LONG_KINDS = ["sum", "minus", "inter", "paren", "unary", "pysum", "pyparen", "bracesum", "calls", "pylist", "power", "parts", "attr"]
+
+
+def long_string(kind, n):
+    if kind == "sum":
+        return "+".join(f"x{i}" for i in range(n))
+    if kind == "minus":
+        return "-".join(f"x{i % 7}" for i in range(n))
+    if kind == "inter":
+        return ":".join(f"x{i}" for i in range(n))
+    if kind == "paren":
+        return "(" * n + "a" + ")" * n
+    if kind == "unary":
+        return "-" * n + "a"
+    if kind == "pysum":
+        return "f(" + "+".join("a" for _ in range(n)) + ")"
+    if kind == "pyparen":
+        return "f(" + "(" * n + "a" + ")" * n + ")"
+    if kind == "bracesum":
+        return "{" + " * ".join(["a", "b"][i % 2] for i in range(n)) + "}"
+    if kind == "calls":
+        return "f(" * n + "a" + ")" * n
+    if kind == "pylist":
+        return "f(" + "[" * n + "a" + "]" * n + ")"
+    if kind == "power":
+        return "(a + b)" + "**1" * n
+    if kind == "parts":
+        return " | ".join("a" for _ in range(n))
+    return "f(a" + ".b" * n + ")"
+
+
+def gen_long():
+    """Long / deeply nested inputs: size alone must not turn a parse into an internal error."""
+    return st.builds(
+        lambda k, n, c: {"s": long_string(k, n), "cfg": c, "long": [k, n]},
+        st.sampled_from(LONG_KINDS), st.sampled_from([150, 400, 700, 1200]), config,
+    )
+
+
 def gen_pyfrag():
     from ..gen import pyexpr as P
 
@@ -266,7 +338,8 @@ def gen_pyfrag():
 
 
 def check_history(case) -> Outcome:
-    """A parser object whose feature flags are changed between parses must behave like a fresh parser with those flags."""
+    """A parser object whose feature flags are changed between parses (and which may be replaced by a pickled or
+    deep-copied copy of itself) must behave like a fresh parser with those flags."""
     from formulaic.parser import DefaultFormulaParser
     from formulaic.errors import FormulaParsingError
 
@@ -276,6 +349,14 @@ def check_history(case) -> Outcome:
     for i, step in enumerate(case["steps"]):
         if i:
             parser.set_feature_flags(set(step["flags"]))
+        if step.get("via") == "pickle":
+            import pickle
+
+            parser = pickle.loads(pickle.dumps(parser))
+        elif step.get("via") == "deepcopy":
+            import copy
+
+            parser = copy.deepcopy(parser)
         fresh = libio.parser_for({"intercept": case["intercept"], "flags": step["flags"]})
         res = []
         for p in (parser, fresh):
@@ -293,12 +374,14 @@ def check_history(case) -> Outcome:
 
 
 def gen_history():
-    step = st.fixed_dictionaries({"flags": st.sampled_from(FLAGSETS), "s": st.sampled_from(["a ~ b", "a | b", "y ~ [a ~ b]", "a + b", "y ~ x | z", "[a ~ b]", "~ a"])})
+    step = st.fixed_dictionaries({"flags": st.sampled_from(FLAGSETS), "via": st.sampled_from([None, None, None, "pickle", "deepcopy"]), "s": st.sampled_from(["a ~ b", "a | b", "y ~ [a ~ b]", "a + b", "y ~ x | z", "[a ~ b]", "~ a",
+                                                                                               # operators fused with a sign into one token
+                                                                                               "y ~ -1 + x", "a |+ b", "y ~ [a ~+ z]", "y ~- x", "a |- b", "~ -a", "y ~ +x |+ z", "a:-b ~ c"])})
     return st.fixed_dictionaries({"intercept": st.booleans(), "steps": st.lists(step, min_size=2, max_size=5)})
 
 
-N = {"quick": (2500, 3500, 3500, 400, 800, 300), "thorough": (40000, 50000, 60000, 6000, 15000, 3000)}
-BUDGET_S = {"quick": 70, "thorough": 1500}
+N = {"quick": (2500, 3500, 3500, 400, 800, 300, 400, 60), "thorough": (40000, 50000, 60000, 6000, 15000, 3000, 4000, 208)}
+BUDGET_S = {"quick": 90, "thorough": 1500}
 THOROUGH_SHARDS = 16
 
 
@@ -311,4 +394,6 @@ def campaigns(tier, shard=0, nshards=1):
         Campaign("multistage", gen_multistage(), check_string, n[3]),
         Campaign("python-fragments", gen_pyfrag(), check_string, n[4]),
         Campaign("flag-history", gen_history(), check_history, n[5]),
+        Campaign("tokenless-factors", gen_tokenless(), check_string, n[6]),
+        Campaign("long-inputs", gen_long(), check_string, n[7]),
     ]
